@@ -132,8 +132,8 @@ class Gf180Walker(h.HierarchyWalker):
         # Map none to default, otherwise leave alone
         mostype = h.MosType.NMOS if params.tp is None else params.tp
         mosfam = h.MosFamily.CORE if params.family is None else params.family
-        mosvth = h.MosVth.STD if params.vth is None else params.vth
-        args = (mostype, mosfam, mosvth)
+        # Gf180 transistors are keyed by type and family alone; there are no threshold variants
+        args = (mostype, mosfam)
 
         # Find all the xtors that match the args
         subset = {}
@@ -153,6 +153,9 @@ class Gf180Walker(h.HierarchyWalker):
             raise RuntimeError(msg)
 
         # Return the first one (supported as of 3.7)
+        if not subset:
+            msg = f"No Mos module for parameters {args}"
+            raise RuntimeError(msg)
         return next(iter(subset.values()))
 
     def mos_module_call(self, params: MosParams) -> h.ExternalModuleCall:
@@ -269,8 +272,8 @@ class Gf180Walker(h.HierarchyWalker):
 
     def bjt_module_call(self, params: BipolarParams):
         # First check our cache
-        if params in CACHE.diode_modcalls:
-            return CACHE.diode_modcalls[params]
+        if params in CACHE.bjt_modcalls:
+            return CACHE.bjt_modcalls[params]
 
         mod = self.bjt_module(params)
 
